@@ -58,6 +58,13 @@ func c18Pinning(canonOnly bool) []c18Atom {
 			}
 		}
 	}
+	if !canonOnly {
+		// the empty literal pins the (single) empty key like any other literal
+		out = append(out, c18Atom{n: gen.Bin("=", K(), gen.Str("")), kind: "eq", set: []string{""}})
+		out = append(out, c18Atom{n: gen.In(K(), gen.Str("")), kind: "in", set: []string{""}})
+		out = append(out, c18Atom{n: gen.In(K(), gen.Str(""), gen.Str("")), kind: "in", set: []string{""}})
+		out = append(out, c18Atom{n: gen.In(K(), gen.Str(""), gen.Str("b")), kind: "in", set: []string{"", "b"}})
+	}
 	return out
 }
 
